@@ -167,46 +167,12 @@ func (c *Conn) Hash() int {
 func (c *Conn) AsyncRead() {
 	g := c.p.g
 
-	// If is EPOLLONESHOT, run the read job directly, because the reading event wouldn't
-	// be re-dispatched before this reading event has been handled and set again.
-	if g.isOneshot {
-		g.IOExecute(func(pbuf *[]byte) {
-			// the buffer is cut to the bytes read for the callback and has to
-			// get its full length back for the next read.
-			bufLen := len(*pbuf)
-			defer func() { *pbuf = (*pbuf)[:bufLen] }()
-			for i := 0; i < g.MaxConnReadTimesPerEventLoop; i++ {
-				*pbuf = (*pbuf)[:bufLen]
-				rc, n, err := c.ReadAndGetConn(pbuf)
-				if n > 0 {
-					*pbuf = (*pbuf)[:n]
-					g.onDataPtr(rc, pbuf)
-				}
-				if errors.Is(err, syscall.EINTR) {
-					continue
-				}
-				if errors.Is(err, syscall.EAGAIN) {
-					break
-				}
-				if err != nil {
-					_ = c.closeWithError(err)
-					return
-				}
-				if n < bufLen && !c.IsUDP() {
-					break
-				}
-			}
-			if atomic.LoadInt32(&c.readEOF) != 0 {
-				c.readToEOF(pbuf)
-				_ = c.closeWithError(io.EOF)
-				return
-			}
-			c.ResetPollerEvent()
-		})
-		return
-	}
-
-	// If is not EPOLLONESHOT, the reading event may be re-dispatched for more than
+	// In EPOLLONESHOT mode the descriptor is disarmed while the read task
+	// runs, but any EPOLL_CTL_MOD issued meanwhile (a Write that leaves a
+	// backlog, a flush that empties the queue, the completion of a dial)
+	// arms it again, so the gate below is needed in that mode as well; the
+	// task re-arms the descriptor when it is done.
+	// The reading event may be re-dispatched for more than
 	// once, here we reduce the duplicate reading events.
 	// The counter is raised in one atomic step and never above 2: raising it
 	// first and lowering it again afterwards lets the running task consume the
@@ -260,6 +226,9 @@ func (c *Conn) AsyncRead() {
 				return
 			}
 			if atomic.AddInt32(&c.readEvents, -1) == 0 {
+				if g.isOneshot {
+					c.ResetPollerEvent()
+				}
 				return
 			}
 		}
